@@ -556,6 +556,57 @@ pub fn dfs_lines(ctx: &BoardCtx, root: &Pos, depth: usize) -> u64 {
     }
 }
 
+/// C01 over histories: the position is reached through the subject's OWN make sequence (never
+/// rebuilt from FEN), the reference position is threaded alongside; at every node the legal move
+/// set offered by the board must equal the reference's. Catches state that only a history can
+/// produce (e.g. a castling right that survives a move it should not).
+pub fn c01_history_dfs(ctx: &BoardCtx, root: &Pos, depth: usize) -> u64 {
+    let fen = root.to_fen();
+    let mut b = match board_from_pos(root) {
+        Ok(b) => b,
+        Err(e) => {
+            ctx.rep.machinery(e);
+            return 0;
+        }
+    };
+    fn rec(ctx: &BoardCtx, root_fen: &str, b: &mut Bitboard, p: &Pos, depth: usize, path: &mut Vec<String>) -> u64 {
+        let mut nodes = 1;
+        let ref_legal = p.legal();
+        let expected = sorted(ref_legal.iter().map(|m| m.uci()).collect());
+        let sub = b.generate_legal_moves();
+        let actual = sorted(sub.iter().map(|m| m.to_uci_string()).collect());
+        if actual != expected {
+            let missing: Vec<&String> = expected.iter().filter(|u| !actual.contains(u)).collect();
+            let extra: Vec<&String> = actual.iter().filter(|u| !expected.contains(u)).collect();
+            let what = if !extra.is_empty() { "extra" } else { "missing" };
+            ctx.rep.report(format!("history_legal_set:{}", what), json!({"kind": "history", "fen": root_fen, "line": path.clone(), "reference_position": p.to_fen(), "missing": missing, "extra": extra}));
+            return nodes; // the subject's state is off from here on
+        }
+        if depth == 0 {
+            return nodes;
+        }
+        for rm in &ref_legal {
+            let rk = mkey_ref(rm);
+            if let Some(sm) = sub.iter().find(|m| mkey_sub(m) == rk) {
+                b.make(*sm);
+                path.push(rm.uci());
+                nodes += rec(ctx, root_fen, b, &p.make(rm), depth - 1, path);
+                path.pop();
+                b.unmake(*sm);
+            }
+        }
+        nodes
+    }
+    let mut path = Vec::new();
+    match guarded(|| rec(ctx, &fen, &mut b, root, depth, &mut path)) {
+        Ok(n) => n,
+        Err(msg) => {
+            ctx.viol(format!("panic:{}", short(&msg)), &fen, json!({"kind": "history", "panic": msg}));
+            0
+        }
+    }
+}
+
 fn dfs_rec(ctx: &BoardCtx, root_fen: &str, b: &mut Bitboard, depth: usize, path: &mut Vec<String>, h: u64, ph: u64) -> u64 {
     let mut nodes = 1;
     if ctx.prop == Prop::C06 {
